@@ -269,6 +269,9 @@ func runC19(cfg Config) {
 			}
 		}
 	}
+	// (6) the casync protocol server and client on arbitrary input streams (protosession.go): verdict, unread input and
+	// every byte written vs the model, no panic, heap in proportion to the input
+	runProtoSessions(cfg, rep, m, rng, cfg.N(20, 400), cfg.N(500, 12000))
 	rep.Write(cfg.Out)
 }
 
